@@ -82,6 +82,11 @@ class C15(HsProp):
                 m_ = gen_hs.mutate_head(rng, req)
                 out.append(gen_hs.hs_case('hm%d' % k, cb, ['r'], ['d:' + hx(m_), 'd:' + hx(frame)], [], []))
             k += 1
+        # a slow but honest client: scores of WouldBlocks before and inside an ordinary valid request
+        reqv = gen_hs.request_bytes(gen_hs.REQUIRED)
+        for nwb in (66, 80, 200):
+            out.append(gen_hs.hs_case('hwb%d' % k, 'none', ['r'], ['e:wb'] * nwb + ['d:' + hx(reqv)], [], [])); k += 1
+            out.append(gen_hs.hs_case('hwb%d' % k, 'none', ['r'], ['e:wb'] * (nwb // 2) + ['d:' + hx(reqv[:40])] + ['e:wb'] * (nwb // 2) + ['d:' + hx(reqv[40:])], [], [])); k += 1
         # keys: accept computation over many key strings
         for i in range(60 if quick else 600):
             n = rng.randint(0, 40)
@@ -160,6 +165,11 @@ class C16(HsProp):
             big = ws.encode_frame(2, bytes(i & 255 for i in range(nbig)))     # with 300+ bytes the leftover is longer than the head itself
             out.append(gen_hs.hc_case('ht%d' % k, b'ws://example.com/', ops=['r', 'r', 'r'],
                                       rds=['d:' + hx(gen_hs.response_bytes([(b'Upgrade', b'websocket'), (b'Connection', b'Upgrade'), (b'Sec-WebSocket-Accept', gen_hs.ACCEPT_MARK)]) + frame1 + big + frame2)], rbs=rbs)); k += 1
+        # a valid 101 that carries Content-Length (0 or N): a 101 has no body, so whatever follows the head is WebSocket data
+        for cl in (b'0', b'3', b'100'):
+            respcl = gen_hs.response_bytes([(b'Upgrade', b'websocket'), (b'Connection', b'Upgrade'), (b'Content-Length', cl), (b'Sec-WebSocket-Accept', gen_hs.ACCEPT_MARK)])
+            out.append(gen_hs.hc_case('hcl%d' % k, b'ws://example.com/', ops=['r', 'r'], rds=['d:' + hx(respcl + frame1 + frame2)])); k += 1
+            out.append(gen_hs.hc_case('hcl%d' % k, b'ws://example.com/', ops=['r', 'r'], rds=['d:' + hx(respcl), 'd:' + hx(frame1 + frame2)])); k += 1
         # extra headers that clash with the mandatory ones (any case): the URL-derived / generated values must win
         resp0 = gen_hs.response_bytes([(b'Upgrade', b'websocket'), (b'Connection', b'Upgrade'), (b'Sec-WebSocket-Accept', gen_hs.ACCEPT_MARK)])
         for extra in ([(b'Host', b'evil.example')], [(b'sec-websocket-key', b'Zml4ZWRmaXhlZGZpeGVkZg==')], [(b'UPGRADE', b'h2c')],
@@ -299,6 +309,29 @@ class C17(HsProp):
             if r404:
                 rds = (['d:' + hx(r404[:cut])] if cut else []) + ['d:' + hx(r404[cut:] + b'B' * 600)]
                 out.append(gen_hs.hc_case('cgt%d' % k, b'ws://example.com/', ops=['r'], rds=rds)); k += 1
+        # many WouldBlocks around an ordinary head: only reads that returned data count as packets of the DoS heuristic
+        for nwb in (70, 100, 300):
+            for role_ in 'sc':
+                head = good if role_ == 's' else resp
+                for pat in ('before', 'between'):
+                    if pat == 'before':
+                        rds = ['e:wb'] * nwb + ['d:' + hx(head)]
+                    else:
+                        a_, b_ = head[:len(head) // 2], head[len(head) // 2:]
+                        rds = ['e:wb'] * (nwb // 2) + ['d:' + hx(a_)] + ['e:wb'] * (nwb // 2) + ['d:' + hx(b_)]
+                    if role_ == 's':
+                        out.append(gen_hs.hs_case('wbm%d' % k, 'none', ['r'], rds, [], [])); k += 1
+                    else:
+                        out.append(gen_hs.hc_case('wbm%d' % k, b'ws://example.com/', ops=['r'], rds=rds)); k += 1
+        # a read that fills the whole 4096-byte chunk, then WouldBlock, then the rest (and the head ending exactly on a chunk boundary)
+        for total in (4096, 8192, 5000, 12288):
+            head = gen_hs.big_valid_request(total)
+            chunks = [head[i:i + 4096] for i in range(0, len(head), 4096)]
+            rds = []
+            for c in chunks:
+                rds += ['d:' + hx(c), 'e:wb']
+            out.append(gen_hs.hs_case('fcw%d' % k, 'none', ['r'], rds, [], [])); k += 1
+            out.append(gen_hs.hs_case('fcw%d' % k, 'none', ['r'], rds[:-1], [], [])); k += 1
         # the read that completes a VALID head is also the read that trips a guard (65th small read; the read crossing 64 KiB):
         # the guard is applied to every read, so the outcome must be AttackAttempt, and one read earlier success
         def pieces(data, n):
